@@ -8,6 +8,7 @@ package interp
 // external or because they use "unsafe" or "reflect" operations.
 
 import (
+	"go/token"
 	"bytes"
 	"math"
 	"os"
@@ -213,9 +214,28 @@ func ext۰sort۰Ints(fr *frame, args []value) value {
 }
 func ext۰sort۰Strings(fr *frame, args []value) value {
 	x := args[0].([]value)
-	sort.Slice(x, func(i, j int) bool {
-		return x[i].(string) < x[j].(string)
-	})
+	anySym := false
+	for _, v := range x {
+		if isSym(v) {
+			anySym = true
+		}
+	}
+	if !anySym {
+		sort.Slice(x, func(i, j int) bool {
+			return x[i].(string) < x[j].(string)
+		})
+		return nil
+	}
+	// symbolic elements: insertion sort whose comparisons are ordinary
+	// symbolic decisions (each order of the elements becomes its own path)
+	for i := 1; i < len(x); i++ {
+		for j := i; j > 0; j-- {
+			if !fr.i.ex.branch(binop(token.LSS, nil, x[j], x[j-1])) {
+				break
+			}
+			x[j], x[j-1] = x[j-1], x[j]
+		}
+	}
 	return nil
 }
 func ext۰sort۰Float64s(fr *frame, args []value) value {
